@@ -29,11 +29,18 @@ class WriteOnlySink:
         if not isinstance(data, (bytes, bytearray, memoryview)):
             self.other.append(f"write({type(data).__name__})")
             raise TypeError("a bytes-like object is required")
+        # like a transport under back-pressure, the sink queues the object it was handed; the
+        # copy taken now is what a sink that sends immediately would have put on the wire
         self.chunks.append(bytes(data))
+        self.__dict__.setdefault("retained", []).append(data)
         return len(data)
 
     def getvalue(self):
         return b"".join(self.chunks)
+
+    def retained_value(self):
+        """What a queueing sink sends when it flushes later: the retained objects' contents now."""
+        return b"".join(bytes(x) for x in self.__dict__.get("retained", []))
 
     def __getattr__(self, name):
         if name.startswith("__") and name.endswith("__"):
@@ -105,12 +112,21 @@ class FakeTransport:
     def __init__(self):
         self.chunks = []
         self.other = []
+        self.retained = []
+        self.closed = False
 
     def write(self, data):
         self.chunks.append(bytes(data))
+        self.retained.append(data)
+
+    def retained_value(self):
+        return b"".join(bytes(x) for x in self.retained)
 
     def is_closing(self):
-        return False
+        return self.closed
+
+    def close(self):
+        self.closed = True
 
     def get_extra_info(self, name, default=None):
         return default
